@@ -381,6 +381,29 @@ fn parse_local(cx: &mut Cx, s: &str) -> Option<Result<NonFungibleLocalId, ParseN
     }
 }
 
+fn parse_global(cx: &mut Cx, suffix: &str, s: &str) -> Option<Result<NonFungibleGlobalId, ParseNonFungibleGlobalIdError>> {
+    let dec = AddressBech32Decoder::new(&net(suffix));
+    let r = catch(AssertUnwindSafe(|| NonFungibleGlobalId::try_from_canonical_string(&dec, s)));
+    let rc = match &r {
+        Err(_) => "Panic".to_string(),
+        Ok(Ok(g)) => format!("(Ok ({}, {}))", coq_bytes(g.resource_address().as_node_id().as_bytes()), id_coq(g.local_id())),
+        Ok(Err(ParseNonFungibleGlobalIdError::InvalidResourceAddress)) => "(Err GInvalidResourceAddress)".to_string(),
+        Ok(Err(ParseNonFungibleGlobalIdError::RequiresTwoParts)) => "(Err GRequiresTwoParts)".to_string(),
+        Ok(Err(ParseNonFungibleGlobalIdError::InvalidNonFungibleLocalId(e))) => format!("(Err (GInvalidLocalId {}))", perr_coq(e)),
+    };
+    cx.push(format!("KGlobalParse {} {} {}", coq_bytes(suffix.as_bytes()), coq_bytes(s.as_bytes()), rc), true);
+    match r {
+        Err(_) => {
+            cx.fail(format!("NonFungibleGlobalId::try_from_canonical_string({:?}) panicked", s), json!({"op":"global_from_str","suffix":suffix,"string":s}));
+            None
+        }
+        Ok(x) => {
+            cx.report.count(if x.is_ok() { "global_parse_ok" } else { "global_parse_err" });
+            Some(x)
+        }
+    }
+}
+
 fn do_local(cx: &mut Cx, rng: &mut Rng) {
     let id = gen_id(rng);
     let s = id.to_string();
@@ -395,9 +418,9 @@ fn do_local(cx: &mut Cx, rng: &mut Rng) {
         Ok(back) if back == id => {}
         other => cx.fail(format!("scrypto_decode(scrypto_encode({:?})) = {:?}", s, other), json!({"op":"local_binary","string":s})),
     }
-    // global id text form on a plain network
-    if rng.chance(1, 3) {
-        let suffix = rng.pick(&["rdx", "tdx_2_", "sim"]).to_string();
+    // global id text form
+    if rng.chance(1, 2) {
+        let suffix = if rng.chance(4, 5) { rng.pick(&["rdx", "tdx_2_", "sim", "loc"]).to_string() } else { gen_suffix(rng) };
         let mut node = rng.bytes(30);
         node[0] = *rng.pick(&[93u8, 154]);
         let mut a = [0u8; 30];
@@ -405,16 +428,58 @@ fn do_local(cx: &mut Cx, rng: &mut Rng) {
         let ra = ResourceAddress::new_or_panic(a);
         let g = NonFungibleGlobalId::new(ra, id.clone());
         let enc = AddressBech32Encoder::new(&net(&suffix));
-        let dec = AddressBech32Decoder::new(&net(&suffix));
-        let text = g.to_canonical_string(&enc);
-        let back = catch(AssertUnwindSafe(|| NonFungibleGlobalId::try_from_canonical_string(&dec, &text)));
-        cx.report.count("global_id_roundtrips");
-        if back != Ok(Ok(g.clone())) {
-            cx.fail(format!("global id text round trip failed for {:?}", text), json!({"op":"global_roundtrip","string":text}));
-        }
-        let wrong = AddressBech32Decoder::new(&net("loc"));
-        if let Ok(Ok(_)) = catch(AssertUnwindSafe(|| NonFungibleGlobalId::try_from_canonical_string(&wrong, &text))) {
-            cx.fail(format!("global id {:?} accepted on another network", text), json!({"op":"global_other_network","string":text}));
+        let printed = catch(AssertUnwindSafe(|| g.to_canonical_string(&enc)));
+        cx.push(
+            format!("KGlobalPrint {} {} {} {}", coq_bytes(suffix.as_bytes()), coq_bytes(&node), id_coq(&id), match &printed {
+                Ok(t) => format!("(Ok {})", coq_bytes(t.as_bytes())),
+                Err(_) => "Panic".to_string(),
+            }),
+            printed.is_ok(),
+        );
+        if let Ok(text) = printed {
+            cx.report.count("global_id_roundtrips");
+            let back = parse_global(cx, &suffix, &text);
+            let colon = suffix.contains(':');
+            match back {
+                Some(Ok(b)) if b == g => {}
+                Some(Err(ParseNonFungibleGlobalIdError::RequiresTwoParts)) if colon => cx.report.count("global_colon_suffix_unparseable"),
+                other => cx.fail(format!("global id text round trip failed for {:?}: {:?}", text, other), json!({"op":"global_roundtrip","suffix":suffix,"string":text})),
+            }
+            let wrong = if suffix == "loc" { "sim" } else { "loc" };
+            if let Some(Ok(_)) = parse_global(cx, wrong, &text) {
+                cx.fail(format!("global id {:?} accepted on another network", text), json!({"op":"global_other_network","string":text}));
+            }
+            // mutated global id text
+            let m: String = match rng.below(6) {
+                0 => text.replacen(':', "::", 1),
+                1 => text.replacen(':', "", 1),
+                2 => format!("{}:", text),
+                3 => {
+                    // a non-resource address in front
+                    let mut n2 = node.clone();
+                    n2[0] = 193;
+                    match enc.encode(&n2) {
+                        Ok(a2) => format!("{}:{}", a2, id),
+                        Err(_) => text.clone(),
+                    }
+                }
+                4 => {
+                    // resource address of the wrong length
+                    match enc.encode(&node[..rng.range(1, 29) as usize]) {
+                        Ok(a2) => format!("{}:{}", a2, id),
+                        Err(_) => text.clone(),
+                    }
+                }
+                _ => text.replacen(':', ":é", 1),
+            };
+            cx.report.count("global_mutations");
+            if let Some(Ok(b)) = parse_global(cx, &suffix, &m) {
+                if m != text || b != g {
+                    cx.fail(format!("mutated global id {:?} accepted", m), json!({"op":"global_mutation","suffix":suffix,"string":m}));
+                }
+            }
+        } else {
+            cx.report.count("global_print_panics_encoder_rejects_hrp");
         }
     }
     // mutated text
@@ -490,7 +555,7 @@ fn main() {
          single-character substitutions, case changes, truncation, transplanted HRPs with recomputed checksum, Bech32 (non-m) variant, random payloads; local ids of all four kinds with a text mutator \
          (non-ASCII, upper-case hex, leading zeros, '+', overflow, hyphen displacement); global id round trips; random byte strings vs from_utf8; non-trivial = accepted encode / any decode or parse call; distinct by canonical text",
     );
-    let mut cw = CaseWriter::new("RV.Corr.C28_run RV.Model.C28_Bech32 RV.Model.C28_LocalId", "check");
+    let mut cw = CaseWriter::new("RV.Corr.C28_run RV.Model.C28_Bech32 RV.Model.C28_LocalId RV.Model.C28_GlobalId", "check");
     let entity_bytes: Vec<u8> = (0u16..=255).map(|b| b as u8).filter(|b| EntityType::from_repr(*b).is_some()).collect();
     let root = Rng::new(args.seed);
     // every entity type at least once, on the three public networks
@@ -532,6 +597,8 @@ fn main() {
     report.floor("local_parse_err", n / 20);
     report.floor("local_parse_err_non_ascii", n / 200);
     report.floor("global_id_roundtrips", n / 20);
+    report.floor("global_parse_ok", n / 20);
+    report.floor("global_parse_err", n / 20);
     cw.write(&args.out, args.shards).unwrap();
     report.write(&args.out).unwrap();
 }
